@@ -163,12 +163,14 @@ Theorem C07_request_target : forall cc sc e nonce rq key, interop_hyps cc sc e n
 Proof. exact request_target. Qed.
 Print Assumptions C07_request_target.
 
-(* the URL components themselves: websocket/util.py parse_url over the urlparse oracle *)
-Theorem C07_parse_url : forall up parts, parse_url up = Some parts ->
-  exists scheme host port path query netloc,
-    up = UpOk scheme (Some host) port path query [] netloc /\ (scheme = WS_S \/ scheme = WSS_S) /\ host <> [] /\
+(* the URL components themselves: websocket/util.py parse_url over the urlparse / unquote oracles. The resource that goes
+   on the wire is the RAW path (or "/") followed by "?" and the RAW query - never the percent-decoded path *)
+Theorem C07_parse_url : forall unquote up parts, parse_url unquote up = Some parts ->
+  exists scheme host port rawpath query netloc,
+    up = UpOk scheme (Some host) port rawpath query [] netloc /\ (scheme = WS_S \/ scheme = WSS_S) /\ host <> [] /\
     u_host parts = host /\ u_secure parts = str_eqb scheme WSS_S /\
-    u_resource parts = (match path with [] => [47] | _ => path end) ++ (match query with [] => [] | _ => 63 :: query end) /\
+    u_resource parts = (match rawpath with [] => [47] | _ => rawpath end) ++ (match query with [] => [] | _ => 63 :: query end) /\
+    u_path parts = unquote (match rawpath with [] => [47] | _ => rawpath end) /\
     (1 <= u_port parts <= 65535)%Z /\
     match port with PortSome p => u_port parts = p | PortNone => u_port parts = (if str_eqb scheme WS_S then 80 else 443)%Z | PortRaises => False end.
 Proof. exact parse_url_spec. Qed.
@@ -344,3 +346,13 @@ Example C07_witness_limit :
     [(1, [true]); (1, [true; false]); (1, [true; false; false]); (0, [false; false; false]);
      (1, [false; false; false; true]); (1, [false; false; false; true; false])].
 Proof. vm_compute. reflexivity. Qed.
+
+(* a URL with percent-escapes in the path AND a query: the request line carries the raw text, the decoded path is only stored *)
+Example C07_witness_url :
+  let up := UpOk (lit "ws") (Some (lit "example.com")) (PortSome 9000%Z) (lit "/chat%20room/a%2Fb") (lit "token=x%26y&lang=en") [] (lit "example.com:9000") in
+  exists p, parse_url (fun _ => lit "/chat room/a/b") up = Some p /\
+    u_resource p = lit "/chat%20room/a%2Fb?token=x%26y&lang=en" /\ u_path p = lit "/chat room/a/b" /\
+    hd [] (c_request_lines {| c_host := u_host p; c_port := u_port p; c_resource := u_resource p; c_useragent := []; c_origin := [];
+                              c_protocols := []; c_headers := []; c_version := 18%Z; c_offers := [] |} []) =
+      lit "GET /chat%20room/a%2Fb?token=x%26y&lang=en HTTP/1.1".
+Proof. vm_compute. eexists. repeat split; reflexivity. Qed.
